@@ -154,12 +154,16 @@ def c09_text(t, dump, tier):
     # the formatted text must parse, keep every token (comments and doc strings included) in order, and compile identically
     want = token_seq(dump, consts)
     nat = symgo.native_dump(outs)
-    runs = [norm_run(r) for r in symgo.native_run([t.text, t.text] + outs, orders=[GENS], fmt=False, visit=True, content=True)]
+    # "compiles identically": decided on the visited model (positions left out, maps in key order), which is what the
+    # generators are a function of -- the generated files themselves depend on Go's map iteration order for some texts
+    # (C13's subject), so comparing two native runs byte for byte would alarm at random.  When the models differ the
+    # outputs are compared as well (four runs each, per-file digests as sets) so that a model difference that no
+    # generator can observe is not reported.
+    runs = symgo.native_run([t.text] + outs, orders=[], fmt=False, visit=True)
     base = runs[0]
-    stable = runs[0].get('gens') == runs[1].get('gens')
     seps = (consts['COMMA'], consts['SEMICOLON'])
     want = [x for x in want if x[0] not in seps]
-    for o, d, r in zip(outs, nat, runs[2:]):
+    for o, d, r in zip(outs, nat, runs[1:]):
         if d.get('syntax_errors') or d.get('panic'):
             e = (d.get('syntax_errors') or [{}])[0]
             res.append(BFinding('C09', 'format', t.tag, 'output-unparsable', 'formatted text does not parse: line %s: %s' % (e.get('Line'), str(e.get('Msg'))[:80]),
@@ -176,9 +180,12 @@ def c09_text(t, dump, tier):
                                 'token sequence changes at position %d: input has %r, output has %r' % (k, missing, got[k] if k < len(got) else None),
                                 {'text': t.text, 'formatted': o}))
             continue
-        if stable and not base.get('panic') and not base.get('model_errors'):
-            if r.get('gens') != base.get('gens') or r.get('model_errors') != base.get('model_errors'):
-                res.append(BFinding('C09', 'format', t.tag, 'compile-differs', 'formatted text compiles to different outputs', {'text': t.text, 'formatted': o}))
+        if not base.get('panic') and not base.get('model_errors') and base.get('model_digest'):
+            if r.get('model_errors') or r.get('panic'):
+                res.append(BFinding('C09', 'format', t.tag, 'compile-differs', 'formatted text is diagnosed (%s) where the input compiles' % str((r.get('model_errors') or [r.get('panic')])[0])[:80],
+                                    {'text': t.text, 'formatted': o}))
+            elif r.get('model_digest') != base.get('model_digest') and outputs_disjoint(t.text, o):
+                res.append(BFinding('C09', 'format', t.tag, 'compile-differs', 'formatted text compiles to a different model and different outputs', {'text': t.text, 'formatted': o}))
     return res, stats
 
 
@@ -191,6 +198,26 @@ def norm_run(r):
                 body = re.sub(r'Copyright \d+', 'Copyright Y', body)
                 files[k] = hashlib.sha1('\n'.join(sorted(body.split('\n'))).encode()).hexdigest()[:12]
     return r
+
+
+def outputs_disjoint(a, b, n=4):
+    """some generated file of b never equals (as a multiset of lines) any observed version of that file for a, over n runs each"""
+    runs = [norm_run(r) for r in symgo.native_run([a] * n + [b] * n, orders=[GENS], fmt=False, visit=False, content=True)]
+
+    def sets(rs):
+        d = {}
+        for r in rs:
+            for g in r.get('gens') or []:
+                if g.get('panic'):
+                    d.setdefault(('panic', ''), set()).add(g['panic'])
+                for gen, files in (g.get('files') or {}).items():
+                    for k, v in files.items():
+                        d.setdefault((gen, k), set()).add(v)
+        return d
+    sa, sb = sets(runs[:n]), sets(runs[n:])
+    if set(sa) != set(sb):
+        return True
+    return any(not (sa[k] & sb[k]) for k in sa)
 
 
 def c10_text(t, dump, tier):
